@@ -45,9 +45,14 @@ class DSReplayer:
     if self.quant:
       run_cfg["best_effort_memory_usage_reduction"] = True
     rmode = {"rep": "rep", "quant": "pmap", "sharded": "sharded"}[self.mode]
-    self.runner = ds.Runner(run_cfg, shapes, rmode)
+    # the quantized pmap mode runs over two devices (3 statistics padded to
+    # 4 work items, two per device)
+    nd = 2 if self.quant and extra_cfg.get("_quant_devices", 1) == 2 else 1
+    run_cfg.pop("_quant_devices", None)
+    cfg.pop("_quant_devices", None)
+    self.runner = ds.Runner(run_cfg, shapes, rmode, ndev=nd)
     gcfg = dict(run_cfg, start_preconditioning_step=10**6)
-    self.graft_runner = ds.Runner(gcfg, shapes, rmode)
+    self.graft_runner = ds.Runner(gcfg, shapes, rmode, ndev=nd)
     self.shapes = shapes
     self.ref0 = ref.RefShampoo(cfg, self.runner.params_np,
                                "sharded" if self.mode == "sharded" else "rep")
@@ -185,6 +190,13 @@ class DSReplayer:
                  "%d) differs from the grafting optimizer's momentum update "
                  "(rel %.3g)" % (n, t, m["start"], maxabs(a - gr) /
                                  max(maxabs(gr), 1e-30)))
+          elif not self.quant and maxabs(a - b) > 2e-4 * sc:
+            # the graft-only run goes through the same code; the documented
+            # formula (graft step, weight decay, momentum) is independent
+            viol("warmup_not_graft", "update of %s on warm-up step %d (start "
+                 "%d) differs from the documented grafting update with "
+                 "weight decay and momentum (rel %.3g)" %
+                 (n, t, m["start"], maxabs(a - b) / sc))
           else:
             acc.outcome("warmup_ok")
         else:
